@@ -216,6 +216,8 @@ def prGroupBy (d : Gen.D) : GroupBy → P
 def prS (d : Gen.D) : Select → P
   | .mk ws dist cols fr lats js wh gb hv ob sb db cb lm => do
       let w ← prWithPrefix d "\n" ws
+      if d != .HIVE && (sb.isSome || db.isSome || cb.isSome) then throw .notSupported
+      if !(d == .HIVE || d == .DEFAULT) && !lats.isEmpty then throw .notSupported
       let cs ← prCols d cols
       let sel := joinS " " (["SELECT"] ++ (if dist then ["DISTINCT"] else []) ++ [joinS ", " cs])
       let frs ← (match fr with | some l => (prFromList d l).map fun x => ["FROM " ++ joinS ", " x] | none => pure [])
@@ -350,6 +352,7 @@ def tn (t : TableName) : String := tableNameSrc t.schema t.name
 
 /-- `ASTInsertStatement._insert_str` -/
 def prInsertHead (d : Gen.D) (h : InsertHead) : P := do
+  if h.type == "INSERT_OVERWRITE" && !(d == .HIVE || d == .DEFAULT) then throw .notSupported
   let ty ← wordsSrc Gen.insertTypes h.type
   let part ← (match h.partition with | some p => (prPartition d p).map fun x => x ++ " " | none => pure "")
   let cols := match h.columns with
